@@ -25,7 +25,7 @@ import tables as T  # noqa: E402
 import corr_joins as J  # noqa: E402
 import corr_filters as F  # noqa: E402
 
-IMPORTS = ['TokenOrdering', 'Filters', 'Suffix', 'Joins', 'Api', 'JoinSpec', 'MetaSpec']
+IMPORTS = ['TokenOrdering', 'Filters', 'Suffix', 'Joins', 'Api', 'JoinSpec', 'MetaSpec', 'VariantSpec']
 JCD = ('JACCARD', 'COSINE', 'DICE')
 
 
@@ -198,9 +198,15 @@ def run_njobs(seed, n, real_processes=False):
                 exprs.append('false')
                 meta.append(dict(d, which='_id is not 0..n-1'))
             if not strict:
-                # prefix/position/suffix filter_tables: qualifying pairs are always listed
-                exprs.append('complete_spec %s %s' % (cname, ov))
-                meta.append(dict(d, which='complete_spec on variant'))
+                # prefix/position/suffix filter_tables may differ in SUPERFLUOUS candidates between
+                # schedules, never in the pairs the property requires to be listed: both results list a
+                # required pair or neither does (Spec/VariantSpec.v; whether every required pair IS
+                # listed is C04's question -- for SuffixFilter a known finding -- not C10's)
+                exprs.append('same_required_spec %s %s %s' % (cname, o0, ov))
+                meta.append(dict(d, which='same_required_spec'))
+                if call['which'] != 'suffix':
+                    exprs.append('complete_spec %s %s' % (cname, ov))
+                    meta.append(dict(d, which='complete_spec on variant'))
                 continue
             cols, rows = canon_rows(out)
             if kind == 'join' and call['measure'] in JCD:
